@@ -21,6 +21,12 @@ The queue is a labelled transition system. Threads: any number of writers
   request in `sending` (loop blocked) until the step `send` moves it into the
   free slot `sendCh`. While `sending` is occupied the loop takes no other step.
 * the timer may fire at any moment once armed (all timings).
+* VALUE SEMANTICS (assumption): a written element list is a value — `W.objs` is what the
+  slice held when `Write` was called. The Go code keeps a reference to the caller's slice
+  until `mergeQueued` copies it into the request, so a caller that mutates its slice between
+  `Write` and the merge is outside the model (rqlite's callers hand over freshly parsed
+  slices and never touch them again). After the merge the request owns its elements: the
+  harness checks that emitted batches do not alias writers' slices.
 * `members` of a request is a ghost field: the writes that were merged into it.
 -/
 import RqModel.Model.Util
